@@ -20,8 +20,10 @@ theirs), what a full load of a data file yields (`loadCfg`), and the fingerprint
 
 A *crash* (SIGKILL) stops a process after any action; the OS then drops its lock; a process killed inside
 `pickle.dump` leaves an arbitrary prefix.  A *schedule* is a list of labels `run i | crash i n`.
-Not modelled: `FileLock` timeouts (a blocked `acquire` simply is not enabled), errors of `open('wb')`,
-`makedirs`, directory state, data files changing while processes run.
+I/O errors (`Lbl.fail`): taking the lock, `open` and `pickle.dump` may raise a class of `ioExcs` at any time.
+`Lbl.wipe`: a cache-disabled SPSDK process removes the whole cache folder (file and lock file unlinked).
+Not modelled: directory state (a vanished folder shows up as `fail` steps), data files changing while
+processes run, inode identity after a `wipe` (two writers on one inode: the model writes `garbage`).
 -/
 import SpsdkVerif.Base.CacheGuardTypes
 
@@ -250,6 +252,32 @@ def crashStep (env : Env) (G : Guards) (i n : Nat) (sh : Sh) (p : Proc) : Option
       else sh.file
     some ({ file := file', lock := if sh.lock = some i then none else sh.lock }, { p with pc := .crashed })
 
+/-- I/O error classes that taking the lock, opening or writing the cache file may raise
+    (read-only / full / vanished cache folder, lock time-out). -/
+def ioExcs : List Exc :=
+  [.OSError, .FileNotFoundError, .PermissionError, .FileExistsError, .NotADirectoryError, .IsADirectoryError,
+   .TimeoutError, .LockTimeout]
+
+/-- The next action of process `i` raises the I/O error `e`: `FileLock.acquire` (time-out, folder gone; also stands
+    for `os.makedirs` in front of it), `open('rb')`, `open('wb')` (file untouched) or `pickle.dump`
+    (disk full: the first `n` bytes have been written). -/
+def failStep (env : Env) (G : Guards) (e : Exc) (n : Nat) (sh : Sh) (p : Proc) : Option (Sh × Proc) :=
+  if !ioExcs.contains e then none
+  else match p.pc with
+    | .lAcquire => some (sh, loaderRaise env G p e)
+    | .lOpen => some (sh, leaveRead env G p (.exc e))
+    | .wAcquire => some (sh, writerRaise env G p e)
+    | .wOpenR => some (sh, leaveWrite env G p (.exc e))
+    | .wTrunc => some (sh, leaveWrite env G p (.exc e))
+    | .wWrite =>
+      let file' : Option Bytes :=
+        if G.w.atomicWrite then sh.file
+        else match sh.file with
+          | some [] => some ((env.pickle (written env p)).take n)
+          | f => f
+      some ({ sh with file := file' }, leaveWrite env G p (.exc e))
+    | _ => none
+
 /-! ### N processes -/
 
 structure St where
@@ -260,7 +288,16 @@ structure St where
 inductive Lbl where
   | run (i : Nat)
   | crash (i n : Nat)
+  /-- the next action of process `i` fails with the I/O error `e` (inside `pickle.dump`: after `n` bytes) -/
+  | fail (i : Nat) (e : Exc) (n : Nat)
+  /-- somebody else (an SPSDK process with SPSDK_CACHE_DISABLED) `rmtree`s the cache folder:
+      cache file and lock file are unlinked — a process inside the lock keeps its (orphaned) lock -/
+  | wipe
   deriving DecidableEq, Repr, Inhabited
+
+def Lbl.isWipe : Lbl → Bool
+  | .wipe => true
+  | _ => false
 
 def gstep (env : Env) (G : Guards) (s : St) : Lbl → Option St
   | .run i =>
@@ -277,6 +314,14 @@ def gstep (env : Env) (G : Guards) (s : St) : Lbl → Option St
       match crashStep env G i n s.sh p with
       | none => none
       | some (sh', p') => some { sh := sh', procs := s.procs.set i p' }
+  | .fail i e n =>
+    match s.procs[i]? with
+    | none => none
+    | some p =>
+      match failStep env G e n s.sh p with
+      | none => none
+      | some (sh', p') => some { sh := sh', procs := s.procs.set i p' }
+  | .wipe => some { s with sh := { file := none, lock := none } }
 
 /-- run a schedule; `none` if some label is not enabled -/
 def runSched (env : Env) (G : Guards) : St → List Lbl → Option St
